@@ -14,6 +14,7 @@ import (
 	"bytes"
 	"context"
 	"encoding/binary"
+	"encoding/json"
 	"fmt"
 	"io"
 	"math/rand"
@@ -21,6 +22,8 @@ import (
 	"net/http"
 	"net/http/httptest"
 	"net/url"
+	"os"
+	"path/filepath"
 	"runtime"
 	"strconv"
 	"strings"
@@ -52,6 +55,8 @@ type wtarget struct {
 	closed   int
 	closedCh chan struct{}
 	firstOut chan struct{} // closed when the first response was handed out
+	finalCh  chan struct{} // closed when the target has ended the call (its terminal result was handed out)
+	finalOne sync.Once
 }
 
 func (t *wtarget) Close() {}
@@ -71,6 +76,7 @@ type wstream struct {
 }
 
 func (s *wstream) final() error {
+	s.t.finalOne.Do(func() { close(s.t.finalCh) })
 	if s.t.code == codes.OK {
 		return io.EOF
 	}
@@ -152,8 +158,36 @@ func (r wrouter) RouteGRPC(ctx context.Context) (grpcadapter.ClientConn, routing
 const webDeadlineMs = 200
 
 type wobs struct {
-	done bool   // the client saw the end of the call (or, for sc=gone, went away as planned)
-	out  string // what it saw
+	done bool      // the client saw the end of the call (or, for sc=gone, went away as planned)
+	out  string    // what it saw
+	conn string    // late-message cases: "1" = the bridge closed the TCP connection after the handshake, "0" = it did not
+	hsAt time.Time // late-message cases: when the client had done its part of the closing handshake
+}
+
+// lateSpec: the "late client message" shape of a WebSocket call — the client sends n further messages after the
+// call has ended (when=ended: right after the target's terminal result / the deadline; when=afterclose: after it
+// has RECEIVED the close frame) and only then answers the close frame.
+type lateSpec struct {
+	on   bool
+	when string
+	n    int
+}
+
+// closeTimeout is the bridge's WebSocket close timeout as the fact extractor read it from the sources
+// (wsCloseTimeoutMs in $VERIF_WORK/facts.json); 3 s if the tree under test has none.
+func closeTimeout() time.Duration {
+	d := 3 * time.Second
+	if b, err := os.ReadFile(filepath.Join(os.Getenv("VERIF_WORK"), "facts.json")); err == nil {
+		var facts []struct{ Name, Value string }
+		if json.Unmarshal(b, &facts) == nil {
+			for _, f := range facts {
+				if ms, err := strconv.Atoi(f.Value); f.Name == "wsCloseTimeoutMs" && err == nil && ms > 0 {
+					d = time.Duration(ms) * time.Millisecond
+				}
+			}
+		}
+	}
+	return d
 }
 
 func wsURL(u string) string { return "ws" + strings.TrimPrefix(u, "http") }
@@ -208,9 +242,20 @@ func RunWeb(line string) string {
 			kv[f[:i]] = f[i+1:]
 		}
 	}
+	// every case has its own watchdog: a case that is still running after CaseLimit is a hang of THAT case
+	return c01.Watchdog(c01.CaseLimit+8*time.Second, func(context.Context) string { return runWeb(kv) })
+}
+
+func runWeb(kv map[string]string) string {
 	n, _ := strconv.Atoi(kv["n"])
 	code, _ := strconv.Atoi(kv["code"])
-	t := &wtarget{sc: kv["sc"], n: n, code: codes.Code(code), closedCh: make(chan struct{}), firstOut: make(chan struct{})}
+	var late lateSpec
+	if kv["sc"] == "late" {
+		late.on, late.when = true, kv["when"]
+		late.n, _ = strconv.Atoi(kv["nlate"])
+		kv["sc"] = kv["base"] // what the target does: tend | deadline
+	}
+	t := &wtarget{sc: kv["sc"], n: n, code: codes.Code(code), closedCh: make(chan struct{}), firstOut: make(chan struct{}), finalCh: make(chan struct{})}
 	rt := wrouter{t: t, desc: newWDesc()}
 	limit := c01.PromptLimit
 	if t.sc == "deadline" {
@@ -251,11 +296,19 @@ func RunWeb(line string) string {
 	case "http":
 		o = webHTTP(srv.URL, t, hdr, limit)
 	case "ws":
-		o = webWS(srv.URL, t, hdr, limit)
+		if late.on {
+			o = webLate(srv.URL, t, hdr, limit, late, false)
+		} else {
+			o = webWS(srv.URL, t, hdr, limit)
+		}
 	case "grpcweb":
 		o = webGRPCWeb(srv.URL, t, hdr, limit)
 	case "grpcws":
-		o = webGRPCWS(srv.URL, t, hdr, limit)
+		if late.on {
+			o = webLate(srv.URL, t, hdr, limit, late, true)
+		} else {
+			o = webGRPCWS(srv.URL, t, hdr, limit)
+		}
 	}
 
 	within := func(ch <-chan struct{}) bool {
@@ -268,6 +321,18 @@ func RunWeb(line string) string {
 	}
 	closed := within(t.closedCh)
 	handler := within(handlerDone)
+	if late.on && !handler && !o.hsAt.IsZero() {
+		// the closing handshake may legitimately take up to wsCloseTimeout after the client's part; not longer
+		select {
+		case <-handlerDone:
+			handler = true
+		case <-time.After(time.Until(o.hsAt.Add(closeTimeout() + c01.PromptLimit))):
+		}
+	}
+	grace := c01.GoroutineGrace
+	if !handler {
+		grace = time.Second // already a violation: the handler is stuck, its goroutines will not go away
+	}
 	fwd := 0
 	for i := 0; i < 200; i++ {
 		if fwd = c01.ForwardGoroutines(); fwd == 0 {
@@ -291,7 +356,7 @@ func RunWeb(line string) string {
 	// that everything such a goroutine could wait for is released: the connection and the server are closed,
 	// the scripted target only ever blocks on the call's context. (A helper that is abandoned WHILE its
 	// operation is still blocked is the known finding C18/D21 and is not what is judged here.)
-	gor, gwhere := c01.WaitBridgeGoroutinesGone(c01.GoroutineGrace, preexisting)
+	gor, gwhere := c01.WaitBridgeGoroutinesGone(grace, preexisting)
 	b2 := func(b bool) string {
 		if b {
 			return "1"
@@ -300,8 +365,12 @@ func RunWeb(line string) string {
 	}
 	t.mu.Lock()
 	defer t.mu.Unlock()
-	return fmt.Sprintf("got.done=%s got.out=%s got.closed=%s got.handler=%s got.fwd=%d got.leak=%d got.streams=%d got.gor=%d got.gwhere=%s",
+	res := fmt.Sprintf("got.done=%s got.out=%s got.closed=%s got.handler=%s got.fwd=%d got.leak=%d got.streams=%d got.gor=%d got.gwhere=%s",
 		b2(o.done), o.out, b2(closed), b2(handler), fwd, leak, t.streams, gor, gwhere)
+	if late.on {
+		res += " got.connclosed=" + o.conn
+	}
+	return res
 }
 
 // webHTTP: server-streaming method over transcoded HTTP; the request body is complete, the client only reads.
@@ -316,23 +385,23 @@ func webHTTP(base string, t *wtarget, hdr string, limit time.Duration) wobs {
 	cl := &http.Client{Transport: &http.Transport{DisableKeepAlives: true}}
 	resp, err := cl.Do(req)
 	if err != nil {
-		return wobs{false, "clienterr"}
+		return wobs{done: false, out: "clienterr"}
 	}
 	defer resp.Body.Close()
 	if t.sc == "gone" {
 		buf := make([]byte, 1)
 		if _, err := io.ReadFull(resp.Body, buf); err != nil {
-			return wobs{false, "nofirst"}
+			return wobs{done: false, out: "nofirst"}
 		}
 		cancel() // the transport closes the connection
-		return wobs{true, "left"}
+		return wobs{done: true, out: "left"}
 	}
 	_, rerr := io.ReadAll(resp.Body)
 	if ctx.Err() != nil {
-		return wobs{false, "timeout"}
+		return wobs{done: false, out: "timeout"}
 	}
 	_ = rerr
-	return wobs{true, fmt.Sprintf("http%d", resp.StatusCode)}
+	return wobs{done: true, out: fmt.Sprintf("http%d", resp.StatusCode)}
 }
 
 func webWS(base string, t *wtarget, hdr string, limit time.Duration) wobs {
@@ -342,7 +411,7 @@ func webWS(base string, t *wtarget, hdr string, limit time.Duration) wobs {
 	}
 	c, _, err := websocket.DefaultDialer.Dial(wsURL(base)+"/bidi?"+q.Encode(), nil)
 	if err != nil {
-		return wobs{false, "dialerr"}
+		return wobs{done: false, out: "dialerr"}
 	}
 	defer c.Close()
 	_ = c.SetReadDeadline(time.Now().Add(limit))
@@ -351,7 +420,7 @@ func webWS(base string, t *wtarget, hdr string, limit time.Duration) wobs {
 		if err == nil {
 			if t.sc == "gone" {
 				c.UnderlyingConn().Close() // no close frame: the client is simply gone
-				return wobs{true, "left"}
+				return wobs{done: true, out: "left"}
 			}
 			continue
 		}
@@ -365,12 +434,12 @@ func webWS(base string, t *wtarget, hdr string, limit time.Duration) wobs {
 			if ce.Code == websocket.CloseNormalClosure {
 				name = "0"
 			}
-			return wobs{true, "status" + name}
+			return wobs{done: true, out: "status" + name}
 		}
 		if ne, ok := err.(net.Error); ok && ne.Timeout() {
-			return wobs{false, "timeout"}
+			return wobs{done: false, out: "timeout"}
 		}
-		return wobs{true, "wserr"}
+		return wobs{done: true, out: "wserr"}
 	}
 }
 
@@ -378,7 +447,7 @@ func webWS(base string, t *wtarget, hdr string, limit time.Duration) wobs {
 func webGRPCWeb(base string, t *wtarget, hdr string, limit time.Duration) wobs {
 	conn, err := net.Dial("tcp", strings.TrimPrefix(base, "http://"))
 	if err != nil {
-		return wobs{false, "dialerr"}
+		return wobs{done: false, out: "dialerr"}
 	}
 	defer conn.Close()
 	th := ""
@@ -393,9 +462,9 @@ func webGRPCWeb(base string, t *wtarget, hdr string, limit time.Duration) wobs {
 		select {
 		case <-t.firstOut:
 			time.Sleep(5 * time.Millisecond)
-			return wobs{true, "left"} // deferred conn.Close()
+			return wobs{done: true, out: "left"} // deferred conn.Close()
 		case <-time.After(limit):
-			return wobs{false, "timeout"}
+			return wobs{done: false, out: "timeout"}
 		}
 	}
 	var buf []byte
@@ -419,16 +488,16 @@ func webGRPCWeb(base string, t *wtarget, hdr string, limit time.Duration) wobs {
 			}
 			if done || err != nil {
 				if !bytes.HasPrefix(buf, []byte("HTTP/1.1 200")) {
-					return wobs{true, "http" + string(buf[9:12])}
+					return wobs{done: true, out: "http" + string(buf[9:12])}
 				}
-				return wobs{true, "status" + parseTrailerStatus(body)}
+				return wobs{done: true, out: "status" + parseTrailerStatus(body)}
 			}
 		}
 		if err != nil {
 			if ne, ok := err.(net.Error); ok && ne.Timeout() {
-				return wobs{false, "timeout"}
+				return wobs{done: false, out: "timeout"}
 			}
-			return wobs{true, "readerr"}
+			return wobs{done: true, out: "readerr"}
 		}
 	}
 }
@@ -437,7 +506,7 @@ func webGRPCWS(base string, t *wtarget, hdr string, limit time.Duration) wobs {
 	d := websocket.Dialer{Subprotocols: []string{"grpc-websockets"}}
 	c, _, err := d.Dial(wsURL(base)+"/t.S/Bidi", nil)
 	if err != nil {
-		return wobs{false, "dialerr"}
+		return wobs{done: false, out: "dialerr"}
 	}
 	defer c.Close()
 	h := "x-verif: 1\r\n"
@@ -452,19 +521,121 @@ func webGRPCWS(base string, t *wtarget, hdr string, limit time.Duration) wobs {
 		_, data, err := c.ReadMessage()
 		if err != nil {
 			if ne, ok := err.(net.Error); ok && ne.Timeout() {
-				return wobs{false, "timeout"}
+				return wobs{done: false, out: "timeout"}
 			}
-			return wobs{true, "status" + st}
+			return wobs{done: true, out: "status" + st}
 		}
 		if len(data) >= 5 && data[0]&0x80 != 0 && bytes.Contains(bytes.ToLower(data), []byte("grpc-status")) {
 			st = parseTrailerStatus(data)
-			return wobs{true, "status" + st}
+			return wobs{done: true, out: "status" + st}
 		}
 		if t.sc == "gone" && len(data) >= 5 && data[0]&0x80 == 0 {
 			c.UnderlyingConn().Close()
-			return wobs{true, "left"}
+			return wobs{done: true, out: "left"}
 		}
 	}
+}
+
+// webLate: transcoded WebSocket (grpc=false) or gRPC-WebSocket (grpc=true), the late-client-message shape.
+func webLate(base string, t *wtarget, hdr string, limit time.Duration, ls lateSpec, grpc bool) wobs {
+	var c *websocket.Conn
+	var err error
+	if grpc {
+		d := websocket.Dialer{Subprotocols: []string{"grpc-websockets"}}
+		c, _, err = d.Dial(wsURL(base)+"/t.S/Bidi", nil)
+	} else {
+		q := url.Values{}
+		if hdr != "" {
+			q.Set("_metadata[grpc-timeout]", hdr)
+		}
+		c, _, err = websocket.DefaultDialer.Dial(wsURL(base)+"/bidi?"+q.Encode(), nil)
+	}
+	if err != nil {
+		return wobs{done: false, out: "dialerr", conn: "0"}
+	}
+	defer c.Close()
+	msg := func() error {
+		if grpc {
+			return c.WriteMessage(websocket.BinaryMessage, []byte{0, 0, 0, 0, 0, 0}) // flow byte + empty message
+		}
+		return c.WriteMessage(websocket.TextMessage, []byte("{}"))
+	}
+	if grpc {
+		h := "x-verif: 1\r\n"
+		if hdr != "" {
+			h = "grpc-timeout: " + hdr + "\r\n"
+		}
+		_ = c.WriteMessage(websocket.BinaryMessage, []byte(h))
+		_ = msg()
+	}
+	gotClose := false
+	if ls.when == "afterclose" {
+		// do not answer the close frame automatically: the client first sends its late messages
+		c.SetCloseHandler(func(int, string) error { gotClose = true; return nil })
+	}
+	if ls.when == "ended" {
+		if t.sc == "deadline" {
+			time.Sleep((webDeadlineMs + 30) * time.Millisecond)
+		} else {
+			select {
+			case <-t.finalCh:
+			case <-time.After(limit):
+			}
+		}
+		for i := 0; i < ls.n; i++ {
+			_ = msg()
+		}
+	}
+	_ = c.SetReadDeadline(time.Now().Add(limit + closeTimeout()))
+	out, done := "notrailer", false
+	for {
+		_, data, err := c.ReadMessage()
+		if err != nil {
+			if ce, ok := err.(*websocket.CloseError); ok {
+				done = true
+				if !grpc {
+					name := "other"
+					for cd := codes.Canceled; cd <= codes.Unauthenticated; cd++ {
+						if strings.Contains(ce.Text, cd.String()) {
+							name = strconv.Itoa(int(cd))
+						}
+					}
+					if ce.Code == websocket.CloseNormalClosure {
+						name = "0"
+					}
+					out = name
+				}
+			} else if ne, ok := err.(net.Error); ok && ne.Timeout() {
+				return wobs{done: false, out: "timeout", conn: "0"}
+			}
+			break
+		}
+		if grpc && len(data) >= 5 && data[0]&0x80 != 0 && bytes.Contains(bytes.ToLower(data), []byte("grpc-status")) {
+			out = parseTrailerStatus(data)
+		}
+	}
+	_ = gotClose
+	if ls.when == "afterclose" && done {
+		for i := 0; i < ls.n; i++ {
+			_ = msg()
+		}
+		_ = c.WriteControl(websocket.CloseMessage, websocket.FormatCloseMessage(websocket.CloseNormalClosure, ""), time.Now().Add(time.Second))
+	}
+	// the bridge must finish the handshake and close the TCP connection itself
+	hsAt := time.Now()
+	conn := "0"
+	nc := c.UnderlyingConn()
+	_ = nc.SetReadDeadline(time.Now().Add(closeTimeout() + c01.PromptLimit))
+	buf := make([]byte, 512)
+	for {
+		if _, err := nc.Read(buf); err != nil {
+			if ne, ok := err.(net.Error); !ok || !ne.Timeout() {
+				conn = "1"
+			}
+			break
+		}
+	}
+	return wobs{done, "status" + out, conn, hsAt}
 }
 
 // GenWeb emits the web scenarios: every entry point x every scenario (finite, always complete).
@@ -485,7 +656,7 @@ func GenWeb(r *rand.Rand, tier string, emit func(string)) {
 		case n > 0:
 			out = "http200" // the status line went out with the first record
 		}
-		emit(fmt.Sprintf("web en=%s sc=%s n=%d code=%d want.done=1 want.out=%s want.closed=1 want.handler=1 want.fwd=0 want.leak=0 want.streams=1 want.gor=0", en, sc, n, code, out))
+		emit(fmt.Sprintf("web en=%s sc=%s n=%d code=%d want.done=1 want.out=%s want.closed=1 want.handler=1 want.fwd=0 want.leak=0 want.streams=1 want.gor=0 want.hang=0", en, sc, n, code, out))
 	}
 	codesErr := []int{int(codes.Aborted), int(codes.PermissionDenied), int(codes.Unavailable), int(codes.Internal)}
 	for _, en := range []string{"http", "ws", "grpcweb", "grpcws"} {
@@ -496,7 +667,38 @@ func GenWeb(r *rand.Rand, tier string, emit func(string)) {
 		line(en, "gone", 1, 0)                               // client goes away mid-stream
 		line(en, "deadline", 0, 0)                           // both idle until the deadline
 	}
+	// the late-client-message shape on both WebSocket entry points: after the target ended the call (OK / error,
+	// with and without responses), after the deadline fired, and after the client has received the close frame
+	lateLine := func(en, base, when string, nlate, n, code int) {
+		out := "status" + strconv.Itoa(code)
+		if base == "deadline" {
+			out = "status" + strconv.Itoa(int(codes.DeadlineExceeded))
+		}
+		emit(fmt.Sprintf("web en=%s sc=late base=%s when=%s nlate=%d n=%d code=%d want.done=1 want.out=%s want.closed=1 want.handler=1 want.connclosed=1 want.fwd=0 want.leak=0 want.streams=1 want.gor=0 want.hang=0",
+			en, base, when, nlate, n, code, out))
+	}
+	for _, en := range []string{"ws", "grpcws"} {
+		for _, when := range []string{"ended", "afterclose"} {
+			lateLine(en, "tend", when, 1, 0, 0)
+			lateLine(en, "tend", when, 3, 2, codesErr[r.Intn(len(codesErr))])
+			lateLine(en, "deadline", when, 2, 0, 0)
+		}
+		lateLine(en, "tend", "ended", 2, 0, int(codes.Unavailable))
+	}
 	if tier == "thorough" {
+		for i := 0; i < 40; i++ {
+			en := []string{"ws", "grpcws"}[r.Intn(2)]
+			when := []string{"ended", "afterclose"}[r.Intn(2)]
+			if r.Intn(4) == 0 {
+				lateLine(en, "deadline", when, 1+r.Intn(3), 0, 0)
+			} else {
+				code := 0
+				if r.Intn(2) == 0 {
+					code = 1 + r.Intn(16)
+				}
+				lateLine(en, "tend", when, 1+r.Intn(3), r.Intn(3), code)
+			}
+		}
 		for i := 0; i < 120; i++ {
 			en := []string{"http", "ws", "grpcweb", "grpcws"}[r.Intn(4)]
 			switch r.Intn(4) {
